@@ -221,7 +221,7 @@ def onmatch_once(named: bool, k: int) -> Tuple[List[str], int, int]:
 
 
 # ------------------------------------------------------------------ O4 every reference kind in a run
-KINDS_TEXT = 'print("v=$.variables.p, k=$.variables.d.k; i=$.variables.st.1! n=$.variables.st.length? h=$.headers.b, x=$.headers.1; m=$.metadata.note, l=$.csvpath.line_number; c=$.csvpath.count_lines; e")'
+KINDS_TEXT = 'print("v=$.variables.p, k=$.variables.d.k; i=$.variables.st.1! n=$.variables.st.length? h=$.headers.b, x=$.headers.1; d=$.headers.a, m=$.metadata.note, l=$.csvpath.line_number; c=$.csvpath.count_lines; e")'
 
 
 CELLS = ["a!", "Z", "9-", "_"]
@@ -231,7 +231,7 @@ def kinds_oracle(v, w, c1, c2):
     out = []
     # the file holds a blank record between the two data lines: physical lines 1 and 3
     for ln, cell in ((1, CELLS[c1]), (3, CELLS[c2])):
-        out.append("v=%s, k=%s; i=%s! n=2? h=%s, x=%s; m=hello, l=%d; c=%d; e" % (v, w, w, cell, cell, ln, ln + 1))
+        out.append("v=%s, k=%s; i=%s! n=2? h=%s, x=%s; d=%s, m=hello, l=%d; c=%d; e" % (v, w, w, cell, cell, "1" if ln == 1 else "2", ln, ln + 1))
     return out
 
 
@@ -251,10 +251,11 @@ def kinds_oracle(v, w, c1, c2):
            "thorough": {"timeout": 3000, "K": {"VLO": -2, "VHI": 2}, "shards": product(c1=[0, 1, 2, 3])}},
 )
 def reference_kinds(v: int, w: int, c1: int, c2: int) -> List[str]:
-    p, pr = fresh('~ note: hello ~ $SYM[1*][ %s ]' % KINDS_TEXT, [["a", "b"], ["1", "x"], [], ["2", "y"]])
+    p, pr = fresh('~ note: hello ~ $SYM[1*][ %s ]' % KINDS_TEXT, [["a", "b", "a"], ["1", "x", "q"], [], ["2", "y", "r"]])
     from vp.kit import StubReader
 
-    StubReader.RECORDS = [["a", "b"], ["1", CELLS[c1]], [], ["2", CELLS[c2]]]
+    # the header name 'a' is repeated: $.headers.a is the first column of that name
+    StubReader.RECORDS = [["a", "b", "a"], ["1", CELLS[c1], "q"], [], ["2", CELLS[c2], "r"]]
     p.variables["p"] = v
     p.variables["d"] = {"k": w}
     p.variables["st"] = [v, w]
